@@ -298,8 +298,8 @@ def transpose2d(op, input):
     out_scale = input._scale
     out_axis = input.axis
     # Manually reverse size and stride because we cannot trust the out_data shape
-    dim0, dim1 = input.size()
-    out_size = torch.Size([dim1, dim0])
+    # (t() is also defined for tensors with less than two dimensions, that it returns as they are)
+    out_size = torch.Size(input.size()[::-1])
     out_stride = input.stride()[::-1]
     if input.axis is not None:
         # We need to transpose also the scale
